@@ -454,6 +454,17 @@ def job_truthiness(ctx, rep, rule, funcs):
             if isinstance(node, (ast.For, ast.comprehension)) and isinstance(node.target, ast.Name) \
                     and _yields_jobs(ctx, node.iter):
                 jobvars[node.target.id] = node.iter
+        # the result of a search over jobs: x = next((j for j in <jobs> if ...), None)
+        for node in walk_local(f.node):
+            if isinstance(node, ast.Assign) and len(node.targets) == 1 and isinstance(node.targets[0], ast.Name) \
+                    and isinstance(node.value, ast.Call) and isinstance(node.value.func, ast.Name) \
+                    and node.value.func.id == 'next' and node.value.args \
+                    and isinstance(node.value.args[0], ast.GeneratorExp):
+                ge = node.value.args[0]
+                g0 = ge.generators[0]
+                if isinstance(ge.elt, ast.Name) and isinstance(g0.target, ast.Name) and ge.elt.id == g0.target.id \
+                        and _yields_jobs(ctx, g0.iter):
+                    jobvars[node.targets[0].id] = g0.iter
         # requirement-like parameters iterated directly (requires(*requirements))
         for node in walk_local(f.node):
             if isinstance(node, ast.For) and isinstance(node.target, ast.Name) and isinstance(node.iter, ast.Name) \
